@@ -96,7 +96,7 @@ def _create_constraint(
     if mjd is not None:
       shape = tuple(sizes[dim] if isinstance(dim, str) else dim for dim in f.type.shape)
       val = np.zeros(shape, dtype=wp.dtype_to_numpy(f.type.dtype))
-      if f.name in ("type", "id", "pos", "margin", "D", "vel", "aref", "frictionloss", "force"):
+      if f.name in ("type", "id", "pos", "margin", "D", "vel", "aref", "frictionloss", "force", "state", "island"):
         val[:, : mjd.nefc] = np.tile(getattr(mjd, "efc_" + f.name), (nworld, 1))
       efc_kwargs[f.name] = wp.array(val, dtype=f.type.dtype)
     else:
@@ -1594,17 +1594,24 @@ def _allocate_island_arrays(
   d.tree_island = wp.array(np.tile(mjd.tree_island, (nworld, 1 if enabled else 0)), dtype=int)
   d.dof_island = wp.array(np.tile(mjd.dof_island, (nworld, 1 if enabled else 0)), dtype=int)
 
-  d.island_dofadr = wp.empty((nworld, ntree_size), dtype=int)
-  d.island_idofadr = wp.empty((nworld, ntree_size), dtype=int)
-  d.island_nv = wp.empty((nworld, ntree_size), dtype=int)
-  d.island_nefc = wp.empty((nworld, ntree_size), dtype=int)
-  d.island_ne = wp.empty((nworld, ntree_size), dtype=int)
-  d.island_nf = wp.empty((nworld, ntree_size), dtype=int)
-  d.island_iefcadr = wp.empty((nworld, ntree_size), dtype=int)
-  d.map_dof2idof = wp.empty((nworld, nv_size), dtype=int)
-  d.map_idof2dof = wp.empty((nworld, nv_size), dtype=int)
-  d.map_efc2iefc = wp.empty((nworld, njmax_size), dtype=int)
-  d.map_iefc2efc = wp.empty((nworld, njmax_size), dtype=int)
+  # get_data_into returns these whenever nisland > 0, so they mirror mjd (zero beyond its extent)
+  def _tiled(src, size):
+    row = np.zeros(size, dtype=np.int32)
+    n = min(size, len(src))
+    row[:n] = src[:n]
+    return wp.array(np.tile(row, (nworld, 1)), dtype=int)
+
+  d.island_dofadr = _tiled(mjd.island_dofadr, ntree_size)
+  d.island_idofadr = _tiled(mjd.island_idofadr, ntree_size)
+  d.island_nv = _tiled(mjd.island_nv, ntree_size)
+  d.island_nefc = _tiled(mjd.island_nefc, ntree_size)
+  d.island_ne = _tiled(mjd.island_ne, ntree_size)
+  d.island_nf = _tiled(mjd.island_nf, ntree_size)
+  d.island_iefcadr = _tiled(mjd.island_iefcadr, ntree_size)
+  d.map_dof2idof = _tiled(mjd.map_dof2idof, nv_size)
+  d.map_idof2dof = _tiled(mjd.map_idof2dof, nv_size)
+  d.map_efc2iefc = _tiled(mjd.map_efc2iefc, njmax_size)
+  d.map_iefc2efc = _tiled(mjd.map_iefc2efc, njmax_size)
 
   d.dof_islandid = wp.empty((nworld, nv_size), dtype=int)
   d.efc_islandid = wp.empty((nworld, njmax_size), dtype=int)
